@@ -35,6 +35,11 @@ CHECKS = {
    text="Generated-input search: 220 templates (each value-eliding combinator around each Emit-forcing parser incl. Ext parsers with a separately written check path) x every string over {a,b,c} up to length 5 (quick) / 7 (thorough), plus 300k / 4M random (grammar, input) pairs over every node family the harness can build (structural / +emitters+recovery / everything incl. labels, map_err, memoized, recursion, state, context), &str and &[char]; check() must report the same has_output and the identical error list as parse() (Rich; Simple and Cheap on a quarter of the cases), the value-building rewrite of the grammar must give the identical output, errors and user state, and running an un-inspected node in Check mode must not change acceptance or errors. Exploration within these bounds.",
    note="No reference semantics is involved (pure differential). Panics occurring identically in both modes are counted and left to C20. Pratt and nested-input grammars are compared parse-vs-check inside C09 / C16.",
    design="DESIGN.md section 4, C04"),
+ "C08": dict(
+   technique="property-based differential testing against a reference semantics of recover_with and its four strategies (output incl. fallback markers, number/order/content of reported errors, final error when both fail), plus oracle-free invariants (no fallback marker in an error-free result; errors >= fallback markers); exhaustive templates x short strings + proptest-driven random tier",
+   text="Generated-input search: 112 templates (8 strategy instances x {alone, followed, inside choice / repetition / or_not, behind an alternative that failed further ahead, recovery inside recovery, validated p} and nested_delimiters with 0..2 extra pairs) x every string over {a,b,c} up to length 6 (quick) / 8 (thorough) resp. over {( ) [ ] a} up to 5 / 7, plus 400k / 5M random C01/C02-class grammars with recover_with at arbitrary nodes and nesting and validate emitters; compared with the reference: has_output, output value (which nodes produced fallback markers), number and order of errors, content (span start, found, expected set / message) of every recovered error and of the final error of a rejected input. Exploration within these bounds.",
+   note="Trusted: the reference strategies written from the statement; both readings of V-take are admissible (the default one matched every case so far). Events inside nested_delimiters' scanner have no specified position (content not compared after one ran). collect_exactly under recover_with panics are F9 / C20 (counted).",
+   design="DESIGN.md section 4, C08"),
 }
 
 NOT_YET = {}
